@@ -23,7 +23,12 @@ BASE = json.load(open("/root/.vp/BASELINE.json"))
 
 
 def sh(cmd, **kw):
-    return subprocess.run(cmd, capture_output=True, text=True, **kw)
+    try:
+        return subprocess.run(cmd, capture_output=True, text=True, **kw)
+    except subprocess.TimeoutExpired as e:
+        # (a demonstration that hangs: reported as exit code 124, like timeout(1))
+        return subprocess.CompletedProcess(cmd, 124, stdout=(e.stdout or b"").decode("utf-8", "replace") if isinstance(e.stdout, bytes) else (e.stdout or ""),
+                                           stderr="TIMEOUT after %ss" % e.timeout)
 
 
 IT_LOCK = __import__("threading").Lock()   # the integration tests bind a fixed port: one run at a time
@@ -89,11 +94,11 @@ def confirm(mid):
         env = dict(os.environ, PYTHONPATH="%s/src:%s/tests" % (wt, wt))
         if demo:
             shutil.copy(os.path.join(d, demo), os.path.join(wt, demo))
-            r0 = sh(["/venv/bin/python", demo], cwd=wt, env=env, timeout=300)
+            r0 = sh(["/venv/bin/python", demo], cwd=wt, env=env, timeout=150)
             res["demo_without_change_rc"] = r0.returncode
         sh(["git", "-C", wt, "apply", os.path.join(d, "patch.diff")])
         if demo:
-            r1 = sh(["/venv/bin/python", demo], cwd=wt, env=env, timeout=300)
+            r1 = sh(["/venv/bin/python", demo], cwd=wt, env=env, timeout=150)
             res["demo_with_change_rc"] = r1.returncode
             res["demo_output_with_change"] = (r1.stdout + r1.stderr)[-400:]
         res["baseline_tests_missing_with_change"] = unit_suite(wt)
